@@ -205,9 +205,8 @@ def r2(cx, rec):
         rec.need(src in params and list(src_of.values()).count(src) == 1, 'handler-new/' + role, f, bi,
                  'PeerHandler.%s is initialised from %s (expected: a constructor parameter of its own)' % (slot, src))
     rec.site(f, bi, 'PeerHandler{%s}' % ', '.join('%s<-%s' % (slots[r], src_of[r]) for r in slots))
-    for g, bb in C.callers(F, f.path):
-        ce = g.expr_call(bb)
-        args = dict(zip(params, ce[2]))
+    for g, bb, cargs in C.ctor_sites(F, f.path):
+        args = dict(zip(params, cargs))
         if not all(src_of[r] in args for r in ('own_id', 'info_hash', 'peer_id')):
             continue
         own = access_path(args[src_of['own_id']])
